@@ -14,7 +14,8 @@
 From Coq Require Import String ZArith List Bool.
 From Knut Require Import Model.Bytes Model.Utf8 Model.UnicodeTables Model.Scanner Model.Parser
   Spec.SyntaxSpec Spec.FormatSpec Spec.LeafSpec Spec.SepSpec Proofs.ScannerProofs Proofs.ParserProofs Proofs.RoundTripLeaf
-  Proofs.RoundTripTop Proofs.LeafProofs Proofs.KeywordProofs Proofs.SepProofs Proofs.DeterminedProofs.
+  Proofs.RoundTripTop Proofs.LeafProofs Proofs.KeywordProofs Proofs.SepProofs Proofs.DeterminedProofs
+  Spec.LocationSpec Proofs.LocationProofs Proofs.LocationParserProofs.
 Import ListNotations.
 Open Scope Z_scope.
 
@@ -358,4 +359,126 @@ A B 1 X
         (mkAddons (mkRange 0 19) (mkPerf (mkRange 0 18) [mkRange 13 14; mkRange 16 17]) zero_accrual)))] in
   wf_tree_b t f = true /\ cover_b t f = true /\ wf_leaves_b is_letter is_digit t f = true /\
   wf_keywords_b t f = true /\ wf_separators_b t f = false.
+Proof. vm_compute. repeat split. Qed.
+
+(* ==================================================================================
+   The RENDERED position of an error (Spec/LocationSpec.v, Proofs/LocationProofs.v).
+   Every diagnostic of knut prints "path: line:col message"; line:col is
+   directives.Range.Location() of the error's range: Go walks the RUNES of the text up to the
+   byte offset End, counting newlines (line) and the runes since the last newline (col).
+   [location t off] is that loop with Go's decoder (an invalid byte is one rune of width 1);
+   [loc_inside_b t (l,c)]: line l exists in t and 1 <= c <= (runes of line l) + 1;
+   [offset_of t (l,c)]: the byte offset that the position (l,c) denotes;
+   [rune_boundary_b t off]: off is the start of a rune of Go's walk over t, or |t|.
+   ================================================================================== *)
+
+(* the rendered position lies inside the input -- for EVERY text and EVERY offset: the line
+   exists and the column is at most one past the runes of that line.  (No hypothesis on off is
+   needed: at an offset that is no rune boundary, negative or beyond the text, Go's comparison
+   pos == End never succeeds and the position of the END of the text is returned,
+   C07_location_off_rune.) *)
+Theorem C07_location_inside : forall t off, loc_inside_b t (location t off) = true.
+Proof. exact location_inside. Qed.
+Print Assumptions C07_location_inside.
+
+(* the rendered position identifies the byte the error points at: computed back from the
+   text, the byte offset of (line, col) is off -- for every off at which a rune of the text
+   starts, and for off = |t| *)
+Theorem C07_location_roundtrip : forall t off,
+  rune_boundary_b t off = true -> offset_of t (location t off) = off.
+Proof. exact location_roundtrip. Qed.
+Print Assumptions C07_location_roundtrip.
+
+(* in terms of BYTES the rendered line is one more than the number of bytes '\n' among the
+   first off bytes of the text (a newline rune is the byte 10; the bytes of every other rune,
+   valid or not, contain no 10).  The column has no such reading: it counts runes -- that is
+   what the round trip above pins down and what a byte distance gets wrong *)
+Theorem C07_location_line : forall t off,
+  rune_boundary_b t off = true -> fst (location t off) = byte_line t off.
+Proof. exact location_line. Qed.
+Print Assumptions C07_location_line.
+
+(* the hypothesis says no more than it should: such offsets lie in [0,|t|], and 0 and |t| are
+   among them *)
+Theorem C07_rune_boundary_bounds : forall t off, rune_boundary_b t off = true -> 0 <= off <= zlen t.
+Proof. exact rune_boundary_bounds. Qed.
+Print Assumptions C07_rune_boundary_bounds.
+
+(* and it is needed: everywhere else Location() renders the end of the text *)
+Theorem C07_location_off_rune : forall t off,
+  rune_boundary_b t off = false -> location t off = location t (zlen t).
+Proof. exact location_off_rune. Qed.
+Print Assumptions C07_location_off_rune.
+
+(* every error of the chain that the parser returns: its byte range lies inside the text
+   (C07_err_in_bounds) and the position rendered for its End lies inside the text *)
+Theorem C07_error_location_inside : forall letter digit t e,
+  parse_text letter digit t = ParseErr e ->
+  err_in_bounds_b t e = true /\
+  forallb (fun x => loc_inside_b t (location t (er_end x))) e = true.
+Proof. exact parse_text_error_location_inside. Qed.
+Print Assumptions C07_error_location_inside.
+
+(* every error of a returned chain ends where a rune of the text starts (or at the end of the
+   text): the scanner only stands at offsets that Go's walk over the runes reaches -- Advance
+   moves by the width of the decoded rune, Backtrack returns to an earlier offset -- and every
+   error range ends at a scanner offset (Proofs/LocationParserProofs.v: an invariant carried
+   through every function of scanner and parser) *)
+Theorem C07_error_ends_at_rune : forall letter digit t e,
+  parse_text letter digit t = ParseErr e ->
+  forallb (fun x => rune_boundary_b t (er_end x)) e = true.
+Proof. exact parse_text_errs_at_runes. Qed.
+Print Assumptions C07_error_ends_at_rune.
+
+(* hence the position rendered for every error of the chain identifies the byte the error
+   points at: computed back from the text, line:col is the byte End *)
+Theorem C07_error_location_roundtrip : forall letter digit t e,
+  parse_text letter digit t = ParseErr e ->
+  forallb (fun x => offset_of t (location t (er_end x)) =? er_end x) e = true.
+Proof. exact parse_text_errs_roundtrip. Qed.
+Print Assumptions C07_error_location_roundtrip.
+
+(* so the verdict of the check on a rendered position -- inside the input and denoting End
+   (observed_loc_ok_b) -- accepts the model's own rendering of every error *)
+Theorem C07_error_location_verdict : forall letter digit t e,
+  parse_text letter digit t = ParseErr e ->
+  forallb (fun x => observed_loc_ok_b t (er_end x) (location t (er_end x))) e = true.
+Proof. exact parse_text_errs_verdict. Qed.
+Print Assumptions C07_error_location_verdict.
+
+(* ---- example: an error AFTER multi-byte characters on its line ----
+   line 2 has 38 runes in 42 bytes (ö ü ä é are two bytes each); the parser stops at the stray
+   euro sign, byte 57 of the text = rune 38 of line 2.  Go renders 2:38 for every error of the
+   chain; that position lies inside the text and denotes byte 57.  A Location() that counted
+   BYTES since the last newline (the seeded change of round 7, strings.LastIndexByte) would
+   print 2:42 -- a column that line 2 does not have. *)
+Definition ex_text_umlaut : str := Eval vm_compute in
+  runes_of_string "2020-01-01 ""ü""
+Vermögen:Zürich Aufwände:Café 12 CHF €
+"%string.
+
+Example C07_example_location :
+  parse_text is_letter is_digit ex_text_umlaut =
+    ParseErr [mkErr (KWhile DFile) 0 57; mkErr (KWhile DDir) 0 57; mkErr (KWhile DTrx) 0 57;
+              mkErr (KWhile DRest) 56 57; mkErr KChar 57 57] /\
+  rune_boundary_b ex_text_umlaut 57 = true /\
+  location ex_text_umlaut 57 = (2, 38) /\
+  loc_inside_b ex_text_umlaut (2, 38) = true /\
+  offset_of ex_text_umlaut (2, 38) = 57 /\
+  byte_line ex_text_umlaut 57 = 2 /\
+  byte_col ex_text_umlaut 57 = 42 /\
+  loc_inside_b ex_text_umlaut (2, 39) = true /\       (* the newline of line 2 *)
+  loc_inside_b ex_text_umlaut (2, 40) = false /\
+  loc_inside_b ex_text_umlaut (2, 42) = false /\
+  observed_loc_ok_b ex_text_umlaut 57 (2, 38) = true /\
+  observed_loc_ok_b ex_text_umlaut 57 (2, 39) = false. (* inside, but another byte *)
+Proof. vm_compute. repeat split. Qed.
+
+(* an invalid byte is one rune of width 1 (as Go's range yields U+FFFD): the error of the
+   invalid-UTF-8 example above points at byte 2 = column 3 of line 1; and an offset inside an
+   encoding (byte 2 of "aü": the second byte of ü) is rendered as the end of the text *)
+Example C07_example_location_invalid :
+  location [35; 32; 255; 10] 2 = (1, 3) /\ offset_of [35; 32; 255; 10] (1, 3) = 2 /\
+  rune_boundary_b [97; 195; 188; 10; 120] 2 = false /\
+  location [97; 195; 188; 10; 120] 2 = (2, 2) /\ location [97; 195; 188; 10; 120] 5 = (2, 2).
 Proof. vm_compute. repeat split. Qed.
